@@ -24,6 +24,11 @@ KINDS = {1: "outcome class (rows / counts / error) differs", 2: "error number di
 
 PROOF_FILE = "At/StmtProofs.v"
 PROOF_REQUIRES = "From SeataV Require Import At.StmtProofs."
+TX_PROOF_FILE = "At/TxProofs.v"
+TX_PROOF_REQUIRES = "From SeataV Require Import At.TxProofs."
+TX_HEADER = HEADER.replace("At.StmtCases.", "At.StmtCases At.Tx At.TxCases.")
+KINDS[9] = "row locks held differ"
+KINDS[14] = "statement outside the Coq grammar"
 
 
 def run_stage(chk, n, seed=None, steps=12, malformed=18):
@@ -64,10 +69,60 @@ def run_stage(chk, n, seed=None, steps=12, malformed=18):
             "mismatches": mismatches, "harness_s": round(secs, 2)}
 
 
+def tx_stage(chk, n, seed=None, steps=20):
+    """the transaction / lock layer: ~n operations in sequential schedules of 2-3 connections
+    (BEGIN/COMMIT/ROLLBACK, savepoints, FOR UPDATE, conflicting writes, closes with an open
+    transaction) on the bare fakedb vs Tx.step; compared after EVERY operation: outcome / error
+    number (1205 at the same operations), result rows, committed rows, AUTO_INCREMENT counter and
+    the set of row locks held.  Same return shape as run_stage."""
+    seed = chk.seed if seed is None else seed
+    out = chk.tmp("txx-%s.json" % seed)
+    data, secs = vlib.run_harness("txx", out, seed=seed, n=n, steps=steps)
+    if data.get("aborted"):
+        raise vlib.Broken("txx generator defect: " + "; ".join(data["aborted"][:3]))
+    cases = [c for c in data["cases"] if c.get("coq")]
+    vlib.coq_make(["At/TxCases.vo"])
+    terms = [c["coq"] for c in cases]
+    shard = max(1, (len(terms) + 5) // 6)
+    mm = vlib.eval_mismatches("txx%s" % chk.prop, TX_HEADER, terms, fn="tmismatches", case_type="tcase", shard=shard, workers=6)
+    mismatches, model_skips = [], 0
+    for ci, codes in sorted(mm.items()):
+        c = cases[ci]
+        step = codes[0] // 16
+        kinds = [code % 16 for code in codes]
+        if kinds == [15] or kinds == [14]:
+            model_skips += len(c["steps"]) - step + 1      # the schedule is not followed further
+            continue
+        s = c["steps"][step - 1]
+        mismatches.append({
+            "seed": seed, "case": c["index"], "step": step, "kinds": [KINDS.get(k, str(k)) for k in kinds],
+            "ddl": c["ddl"], "setup": c["setup"], "init": c["init"],
+            "program": [{"conn": x["conn"], "op": x["op"], "sql": x["sql"], "args": x["args"], "errno": x["obs"].get("errno")}
+                        for x in c["steps"][:step]],
+            "sql": "conn %d: %s" % (s["conn"], s["sql"] or s["op"]), "args": s["args"], "prepared": s["prepared"],
+            "fakedb_answer": s["obs"], "fakedb_dump": s["dump"], "fakedb_auto_inc": s["auto"], "fakedb_locks": s["locks"],
+            "replay": "build/verifh txx seed=%s n=%d steps=%d only=%d out=/tmp/x.json" % (seed, n, steps, c["index"]),
+        })
+    total = data["statements"]
+    skipped = data["skipped"] + model_skips
+    return {"cases": total - skipped, "statements": total, "programs": len(cases), "skipped": skipped,
+            "skipped_translator_or_engine": data["skipped"], "skipped_model": model_skips,
+            "skip_why": data["skip_why"], "kinds": data["kinds"], "fakedb_answers": data["errnos"],
+            "mismatches": mismatches, "harness_s": round(secs, 2)}
+
+
 def proof_stage(chk):
-    """machine-checked part: the theorems of At/StmtProofs.v compile and are closed"""
+    """machine-checked part: the theorems of At/StmtProofs.v (and At/TxProofs.v) compile and are closed"""
+    a = _proof_stage(PROOF_FILE, PROOF_REQUIRES)
+    if not a["ok"] or not os.path.exists(os.path.join(vlib.COQ, TX_PROOF_FILE)):
+        return a
+    b = _proof_stage(TX_PROOF_FILE, TX_PROOF_REQUIRES)
+    return {"ok": b["ok"], "out": a["out"] + b["out"], "thms": a["thms"] + b["thms"], "n_closed": a["n_closed"] + b["n_closed"]}
+
+
+def _proof_stage(PROOF_FILE, PROOF_REQUIRES):
     ok, out = vlib.coq_make([PROOF_FILE + "o"])
-    thms = [t for t in _theorems()]
+    thms = [t for t in _theorems(PROOF_FILE)]
     if not ok:
         return {"ok": False, "out": out, "thms": thms, "n_closed": 0}
     text = PROOF_REQUIRES + "\n" + "\n".join("Print Assumptions %s." % t for t in thms) + "\n"
@@ -82,7 +137,7 @@ def proof_stage(chk):
     return {"ok": True, "out": out, "thms": thms, "n_closed": n_closed}
 
 
-def _theorems():
+def _theorems(PROOF_FILE=PROOF_FILE):
     import re
     src = open(os.path.join(vlib.COQ, PROOF_FILE)).read()
     out, mod = [], ""
